@@ -23,7 +23,7 @@ from typing import Any, ForwardRef, Optional, Tuple, Type, Union
 from uuid import UUID
 from zoneinfo import ZoneInfo
 
-from typing_extensions import TypeAlias
+from typing_extensions import LiteralString, TypeAlias
 
 from mashumaro.config import BaseConfig
 from mashumaro.core.const import PY_311_MIN
@@ -44,6 +44,7 @@ from mashumaro.core.meta.helpers import (
     is_readonly,
     is_required,
     is_special_typing_primitive,
+    is_type_alias_type,
     is_type_var,
     is_type_var_any,
     is_type_var_tuple,
@@ -486,6 +487,10 @@ def on_special_typing_primitive(
         return get_schema(instance.derive(type=tuple[Any, ...]), ctx)
     elif is_readonly(instance.type):
         return get_schema(instance.derive(type=args[0]), ctx)
+    elif instance.type is LiteralString:
+        return get_schema(instance.derive(type=str), ctx)
+    elif is_type_alias_type(instance.type):
+        return get_schema(instance.derive(type=instance.type.__value__), ctx)
     elif isinstance(instance.type, ForwardRef):
         evaluated = evaluate_forward_ref(
             instance.type,
